@@ -1,7 +1,7 @@
 (* Corr/C06Corr.v — case checkers for the C06 correspondence (model vs implementation).
    Depends on the model only.  The int(s, 0) oracle is instantiated by pyint0_ref; the stream
    `pyint0` compares that instance with Python's int(s, 0) itself. *)
-From Coq Require Import QArith Ascii String.
+From Coq Require Import QArith Qabs Ascii String.
 From CKT Require Import Common.Base Model.Reconstruct.
 Close Scope Q_scope.
 Open Scope nat_scope.
@@ -38,3 +38,24 @@ Definition chk_process_outcome_v2 (c : list N * N * N * list Z) : bool :=
 (* int.from_bytes(row, "big") on BitArray rows: (row, expected) *)
 Definition chk_from_bytes (c : list N * N) : bool :=
   let '(row, e) := c in N.eqb (from_bytes_big row) e.
+
+(* partition given by Pauli letters only (group structure from the real ObservableCollection,
+   masks and lookup recomputed by the model) *)
+Definition PL := part_of_letters.
+
+(* CommutingObservableGroup.__post_init__: (general, members, expected pauli_indices, expected pauli_bitmasks) *)
+Definition chk_cog (c : letters * list letters * list nat * list N) : bool :=
+  let '(g, ms, ei, em) := c in
+  let idx := pauli_indices_of g in
+  list_beq Nat.eqb idx ei && list_beq N.eqb (map (bitmask_of idx) ms) em.
+
+(* ObservableCollection.lookup: (groups as letters, sub-observables, expected lookup[subobs[k]] for every k) *)
+Definition chk_lookup (c : list lgroup * list letters * list (list (nat * nat))) : bool :=
+  let '(gs, subs, e) := c in
+  list_beq (list_beq (pair_beq Nat.eqb Nat.eqb)) (map (lookup_of gs) subs) e.
+
+(* reconstruct on data where binary64 arithmetic is NOT exact (shot counts that are not powers of
+   two): equal outcome kind, equal length, every entry within 1e-9 *)
+Definition close (a b : Q) : bool := Qle_bool (Qabs (a - b)) (Qmake 1 1000000000).
+Definition chk_reconstruct_tol (c : robj * list Q * oobj * res (list Q)) : bool :=
+  let '(r, coeffs, o, e) := c in res_beq (list_beq close) (reconstruct pyint0_ref r coeffs o) e.
